@@ -224,6 +224,9 @@ pub fn record_alphabet(section: &str) -> Vec<String> {
         "HitObjects" => &[
             "10,20,{t},1,0",
             "10,20,{t}, 1 , 2 ",
+            // empty file-name slot followed by a comment; a sample file in a directory written with a backslash
+            "256,192,{t},1,0,0:0:0:0: // x",
+            "10,20,{t},1,2,0:0:0:70:drums\\kick.wav",
             "10,20,{t},5,14,2:3:1:50:",
             "64,64,{t},21,2,0:0:0:0:file.wav",
             "100,100,{t},2,0,B|200:100|200:200,1,150",
